@@ -492,7 +492,10 @@ def unary(ctx, op, a):
     if n is None:
         raise Unsupported(f"unary {op} on {type(a).__name__}")
     if op == "-":
-        return Num(-n.z, n.is_int)
+        c = conc(n.z) if n.is_int else None
+        if c is not None:
+            return Num(z3.IntVal(-c), True)
+        return Num(z3.simplify(-n.z) if z3.is_rational_value(n.z) else -n.z, n.is_int)
     if op == "+":
         return n
     raise Unsupported(f"unary {op}")
